@@ -12,7 +12,7 @@ use std::rc::Rc;
 fn check_cases(cases: &[(u16, u16, u16, u16, u16, u16, u16)], tag: u64) -> RunOutcome {
     let mut o = RunOutcome::empty();
     o.evaluations = 0;
-    let v = VolCfg { source: VolSource::Format, fat: 12, bps: 512, spc: 1, fats: 1, root_entries: 16, total_sectors: 200, extra_sectors: 0, ballast_keep: None, ballast_mode: 0, fsinfo_mode: 0, hint: None, status: 0, label: false, tail_taken: 0 };
+    let v = VolCfg { source: VolSource::Format, fat: 12, bps: 512, spc: 1, fats: 1, root_entries: 16, total_sectors: 200, extra_sectors: 0, ballast_keep: None, ballast_mode: 0, fsinfo_mode: 0, hint: None, status: 0, label: false, tail_taken: 0, dirty_medium: false };
     let store = crate::vol::format_store(&v).expect("harness: c18 volume");
     let st = Rc::new(RefCell::new(DiskState::new(store)));
     st.borrow_mut().log_mode = LogMode::Off;
